@@ -118,10 +118,15 @@ pub fn gen(prop: &str, seed: u64, index: u64, _tier: Tier) -> Case {
     let a = analyze(&project);
     let (inputs, recursive) = gen::gen_inputs(&mut prng, &a, false);
     let mut params = BTreeMap::new();
-    let kind = if prop == "C08" || prop == "C09" { "crash" } else { "errno" };
+    // C09 has both kinds (crash twins, and errno cases for "nothing correct is rewritten")
+    let kind = if prop == "C08" || (prop == "C09" && index % 120 < 60) { "crash" } else { "errno" };
     let mode = if kind == "crash" {
         // any interrupted run, not only a build, may have left the tree as it is
         *rng.pick(&["build", "build", "build", "needed", "needed", "verify-fresh", "clean"])
+    } else if prop == "C09" {
+        *rng.pick(&["build", "needed", "needed", "verify-fresh"])
+    } else if prop == "C10" {
+        *rng.pick(&["build", "needed", "verify-fresh", "verify-fresh", "clean", "clean", "clean"])
     } else {
         *rng.pick(&["build", "build", "needed", "needed", "verify-fresh", "verify-tampered", "clean"])
     };
@@ -133,8 +138,14 @@ pub fn gen(prop: &str, seed: u64, index: u64, _tier: Tier) -> Case {
     // what lies at the generated paths when the faulted run starts
     params.insert(
         "pre".into(),
-        (*rng.pick(if mode == "build" || mode == "needed" {
+        (*rng.pick(if prop == "C09" && kind == "errno" {
+            // everything is up to date: nothing may be rewritten
+            &["built"][..]
+        } else if mode == "build" || mode == "needed" {
             &["pristine", "pristine", "built", "built-edited"][..]
+        } else if mode == "clean" && prop == "C10" {
+            // clean of a tree that was never built, too: nothing to remove, nothing to create
+            &["built", "pristine"][..]
         } else {
             &["built"][..]
         }))
@@ -350,6 +361,8 @@ struct PointResult {
     point: Point,
     fired: bool,
     code: i32,
+    /// the lane's tree right before the faulted run (inodes and time stamps of this lane)
+    before: Snap,
     after: Snap,
     repair_codes: Vec<i32>,
     repaired: Option<Snap>,
@@ -575,6 +588,8 @@ pub fn run(case: &Case, ctx: &mut Ctx) -> CaseOutcome {
                         None => break,
                     };
                     l.reset(image);
+                    tree::set_sentinel(&l.root);
+                    let before = tree::snapshot(&l.root);
                     let paths = trace_paths(&l.root, image, a);
                     let (code, log) = match run_traced(l, inv, &paths, Some(&pt), !unfiltered(&pt.call)) {
                         Some(x) => x,
@@ -617,6 +632,7 @@ pub fn run(case: &Case, ctx: &mut Ctx) -> CaseOutcome {
                         point: pt,
                         fired,
                         code,
+                        before,
                         after,
                         repair_codes,
                         repaired,
@@ -697,6 +713,49 @@ pub fn run(case: &Case, ctx: &mut Ctx) -> CaseOutcome {
             if let Some((class, msg)) = fail {
                 out.violate("C08", class, msg);
             }
+        } else if prop == "C09" {
+            // C09: whatever fails, a generated file whose content was already correct keeps its
+            // inode and time stamp (a temp file in every mode, an output under --needed)
+            if r.code == 0 && ref_code == 0 {
+                ctx.stats.count("sys.errno_runs_succeeded_and_checked");
+            }
+            for g in &products {
+                let is_out = a.sources.iter().any(|s| &s.out == g);
+                if is_out && mode != ModeS::Needed {
+                    continue;
+                }
+                let (b, n) = (r.before.get(g), r.after.get(g));
+                if let (Some(Node::File { data: d0, ino: i0, mtime: m0 }), Some(Node::File { data: d1, ino: i1, mtime: m1 })) = (b, n) {
+                    let was_correct = tree::file_bytes(&reference, g) == Some(d0.as_slice());
+                    if was_correct && d0 == d1 && (i0 != i1 || m0 != m1) {
+                        out.violate(
+                            "C09",
+                            if is_out { "needed-rewrote-unchanged-output" } else { "rewrote-unchanged-temp" },
+                            format!("{at}: {g} held the right bytes and was written again (exit status {})", r.code),
+                        );
+                        break;
+                    }
+                }
+            }
+        } else if prop == "C10" {
+            // C10: whatever the verdict, only generated paths change; verify leaves outputs
+            // alone; clean creates and modifies nothing
+            let gen_paths = a.gen_all();
+            let outs: BTreeSet<String> = a.sources.iter().map(|s| s.out.clone()).collect();
+            for (p, ch) in tree::diff(&r.before, &r.after) {
+                let is_dir = matches!(r.before.get(&p), Some(Node::Dir)) || matches!(r.after.get(&p), Some(Node::Dir));
+                if is_dir {
+                    continue;
+                }
+                if !gen_paths.contains(&p) {
+                    out.violate("C10", "wrote-outside-own-outputs", format!("{at}: {ch:?} {p}, neither an output nor a temp target"));
+                } else if mode == ModeS::Verify && outs.contains(&p) {
+                    out.violate("C10", "verify-touched-output", format!("{at}: {ch:?} output {p} (exit status {})", r.code));
+                } else if mode == ModeS::Clean && ch != tree::Change::Deleted {
+                    out.violate("C10", "clean-created-or-modified", format!("{at}: {ch:?} {p} (exit status {})", r.code));
+                }
+            }
+            ctx.stats.count("sys.errno_runs_succeeded_and_checked");
         } else {
             // C04: success is only reported when everything is complete and correct
             if r.code == -9999 {
